@@ -272,7 +272,45 @@ def ip_write(ctx, driver, rng, loop):
         lines.append(f"cl.ipput {keys_str(readable)} {'204' if resp is None else J(resp)}")
         ctx.dist["ipwrite"] += 1
 
+    def request_wide(layout, resp):
+        """a write reply that carries only a request-wide non-zero status and lists no characteristic: nothing was written -
+        the call fails or reports every characteristic with a non-zero status, and no listener hears of a new value"""
+        req = sorted(layout)
+        p = IpPairing.__new__(IpPairing)
+        p._ensure_connected = _noop
+        p._accessories_state = AccessoriesState(build_accessories(layout), 1, None, 0)
+        events = []
+        p.listeners = {events.append}
+
+        class Conn:
+            async def put_json(self, url, body):
+                return copy.deepcopy(resp)
+        p.connection = Conn()
+        ctx.evaluations += 1
+        case = {"stream": "ipwrite-request-wide", "layout": {f"{a}.{i}": v for (a, i), v in layout.items()}, "reply": resp}
+        raised = None
+        r = {}
+        try:
+            r = loop.run_until_complete(p.put_characteristics([(a, i, True) for a, i in req]))
+        except Exception as e:  # noqa: BLE001
+            raised = type(e).__name__
+        notified = {}
+        for ev in events:
+            notified.update(ev)
+        if notified:
+            ctx.violation("ipwrite/false-success", f"write of {req} answered {J(resp)} (request-wide status, nothing listed): listeners were told {sorted(notified)} have the new value"
+                          + ("" if raised else f" and the call returned {canon_result(r)}"), case)
+        elif raised is None and any(r.get(k, {}).get("status", 0) == 0 for k in req):
+            ctx.violation("ipwrite/false-success", f"write of {req} answered {J(resp)}: the call returned {canon_result(r)} - rejected characteristics presented as written", case)
+        ctx.nontrivial.add(("ipwrite-request-wide", len(req), resp.get("status")))
+        ctx.dist["ipwrite-request-wide"] += 1
+
     perms = ["rw", "w", "trw", "tw"]
+    for n in (1, 2, 3):
+        req = [(1, 2), (1, 3), (2, 4)][:n]
+        for pv in itertools.product(["rw", "w"], repeat=n):
+            for code in (-70401, -70403, -70410):
+                request_wide(dict(zip(req, pv)), {"status": code})
     for n in (1, 2, 3):
         req = [(1, 2), (1, 3), (2, 4)][:n]
         for pv in itertools.product(["rw", "w"], repeat=n):
